@@ -777,7 +777,27 @@ def scalar_suite(chk, w, rule, nmax, orders=(0, 2), ns=None, fixed=True):
                 plain = lambda I, p: frozenset([("c", "a", I, p)]) if ina(I) else frozenset()
                 scaled = lambda q: (lambda I, p: ({("c", "a", I, p): Fraction(q)} if ina(I) else {}))
                 case = dict(order=A, n=n, a=wa)
-                for f, nm, args, spec, inplace, lin in (
+                # overloads for expiring objects (&&-qualified members, free operators taking Spline&&; none on the reference
+                # tree): same result; the consumed object may be changed but must stay a valid spline
+                extra = []
+                for f_ in w.I.find_methods(cls, "operator*", 1, isT):
+                    if f_ is not fm:
+                        extra += [(f_, "std::move(a)*c", lambda a: (a, [box(c)]), with_c, "consumed", None),
+                                  (f_, "std::move(a)*3", lambda a: (a, [box(k3)]), plain, "consumed", scaled(3))]
+                for f_ in w.I.find_methods(cls, "operator/", 1, isT):
+                    if f_ is not fd:
+                        extra += [(f_, "std::move(a)/c", lambda a: (a, [box(c)]), with_c, "consumed", None),
+                                  (f_, "std::move(a)/3", lambda a: (a, [box(k3)]), plain, "consumed",
+                                   scaled(Fraction(1, 3)))]
+                for f_ in w.I.find_methods(cls, "operator-", 0):
+                    if f_ is not fneg:
+                        extra += [(f_, "-std::move(a)", lambda a: (a, []), plain, "consumed", scaled(-1))]
+                for f_ in w.u.funcs:
+                    if (not f_.dependent and f_.pqn == "bspline::operator*" and f_ is not ffree and
+                            len(f_.decl["params"]) == 2 and ("Spline<%s, %d>" % (T, A)) in f_.decl["params"][1]["type"]):
+                        extra += [(f_, "3*std::move(a)", lambda a: (None, [box(k3), box(a)]), plain, "consumed", scaled(3)),
+                                  (f_, "c*std::move(a)", lambda a: (None, [box(c), box(a)]), with_c, "consumed", None)]
+                for f, nm, args, spec, inplace, lin in tuple(extra) + (
                         (fm, "a*c", lambda a: (a, [box(c)]), with_c, False, None),
                         (fd, "a/c", lambda a: (a, [box(c)]), with_c, False, None),
                         (fme, "a*=c", lambda a: (a, [box(c)]), with_c, True, None),
@@ -794,10 +814,15 @@ def scalar_suite(chk, w, rule, nmax, orders=(0, 2), ns=None, fixed=True):
                     this, argv = args(a)
                     o = w.call(f, this, argv)
                     ok, why = False, repr(o)
+                    consumed = inplace == "consumed"
+                    inplace = inplace is True
                     if o.kind == "val":
                         r = a if inplace else val(o.v)
                         if isinstance(r, Obj):
                             ok, why = valid_spline(w, r, n)
+                            if ok and consumed:
+                                ok, why = valid_spline(w, a, n)
+                                why = "the consumed object: " + why if not ok else why
                             if ok:
                                 with_k = spec is with_c
                                 ok, why = _expect_coeffs(
@@ -807,7 +832,7 @@ def scalar_suite(chk, w, rule, nmax, orders=(0, 2), ns=None, fixed=True):
                                                   if ina(I) else frozenset()))
                                 if ok and same_window(spline_view(w, r)[0], wa) is False:
                                     ok, why = False, "support changed"
-                    if ok and not inplace and snap(a) != sa:
+                    if ok and not inplace and not consumed and snap(a) != sa:
                         ok, why = False, "operand was modified"
                     cs.expect(f, "%s scales every coefficient of every interval of a by that factor (and nothing else)" % nm,
                               case, o, ok, "specified dependence (%s)" % why)
